@@ -1827,7 +1827,7 @@ def replay(ctx, payload):
         views, zops = run_dop_impl(d["case"])
         for z, vw in zip(zops, views):
             if z[0] == "mc" and vw[2] and z[2] == 0 and (
-                    vw[0] or abs(vw[1] - z[1]) > 4 * np.spacing(abs(z[1]))):
+                    vw[0] or abs(vw[1] - z[1]) > 4 * np.spacing(max(abs(z[1]), abs(z[5])))):
                 ctx.violation(payload["site"], payload["signature"],
                               "mcstep(%r) returned %r (raised=%r)" % (z[1], vw[1], vw[0]), d)
                 break
@@ -2605,6 +2605,11 @@ def run_dop_impl(case):
             t = lo + float(op[1]) * (hi - lo) if hi is not None else cur
         else:
             t = cur
+        # requests within rounding distance of the current time are outside
+        # the search pattern (norm_t_tol is far above an ulp): ask for the
+        # current time itself
+        if t != cur and abs(t - cur) <= 64 * np.spacing(max(abs(t), abs(cur), 1e-300)):
+            t = cur
         dt = float(I._ode_solver._integrator.work[6])
         raw.pop("r", None)
         try:
@@ -2667,7 +2672,7 @@ def compare_dop853(ctx, n, rng):
             if fwd and z[2] == 0 and z[3] != z[1] and not z[4]:
                 off_contract += 1      # scipy neither exact nor short-by-rounding (overshoot by an ulp)
             if z[0] == "mc" and vw[2] and z[2] == 0 and (
-                    vw[0] or abs(vw[1] - z[1]) > 4 * np.spacing(abs(z[1]))):
+                    vw[0] or abs(vw[1] - z[1]) > 4 * np.spacing(max(abs(z[1]), abs(z[5])))):
                 errs = c.pop("_errs", [])
                 ctx.violation("integrator.mcstep:dop853",
                               "request-raises" if vw[0] else "request-not-answered-exactly",
